@@ -1270,7 +1270,8 @@ pub fn gen_costs(rng: &mut Rng) -> Vec<CostSpec> {
     let mut v = Vec::new();
     for _ in 0..n {
         v.push(match rng.usize(3) {
-            0 => CostSpec::PerShare(X(*rng.pick(&[0.0, 0.01, 0.1, 0.25, 0.5]))),
+            // rarely a per-share fee larger than a cheap share (the net sell price goes negative)
+            0 => CostSpec::PerShare(X(*rng.pick(&[0.0, 0.01, 0.1, 0.25, 0.5, 0.5, 0.1, 5.0, 500.0]))),
             1 => CostSpec::Pct(X(*rng.pick(&[0.0, 0.001, 0.01, 0.05]))),
             _ => CostSpec::Flat(X(*rng.pick(&[0.0, 1.0, 10.0, 100.0, 300.0]))),
         });
